@@ -303,7 +303,7 @@ func c03GenBuffer(c *ctx) {
 		nontrivial := len(chunks) > 1
 		cs, os := c03ChunksStr(chunks), c03OpsStr(ops)
 		c.emit(nontrivial, "run_cont", c03ResStr(res)+"|"+c03ChunksStr(pops), os, cs)
-		c.emit(nontrivial, "run", c03ResStr(c03Truncate(res)), os, cs)
+		c.emit(nontrivial, "buf_run", c03ResStr(c03Truncate(res)), os, cs)
 	}
 	checkRef := func(chunks [][]byte, flat []byte, ops []c03Op, res []string) {
 		c03CheckRef(func(k, w, d string) { c.violate(k, w, d) }, chunks, flat, ops, res)
@@ -405,7 +405,7 @@ func c03GenBuffer(c *ctx) {
 			cs, os := c03ChunksStr(chunks), c03OpsStr(ops)
 			out.lines = append(out.lines, c03Line{nontrivial, "run_cont", c03ResStr(res) + "|" + c03ChunksStr(pops), [2]string{os, cs}})
 			if interrupted {
-				out.lines = append(out.lines, c03Line{nontrivial, "run", c03ResStr(c03Truncate(res)), [2]string{os, cs}})
+				out.lines = append(out.lines, c03Line{nontrivial, "buf_run", c03ResStr(c03Truncate(res)), [2]string{os, cs}})
 			}
 		}
 		depth := 3
